@@ -16,6 +16,7 @@
 import CTM.Lemmas.Tree
 import CTM.Lemmas.TreeLca
 import CTM.Lemmas.TreeLinks
+import CTM.Lemmas.TreeEquivWF
 import CTM.Generated.TreeConsts
 
 namespace CTM.C10
@@ -738,6 +739,78 @@ example : (fromRecordsRaw [0, 1, 2] [[10, 20, 30], [10, 21, 31], [11, 22, 32], [
     fromRecordsRaw [0, 2] [[10, 30], [10, 31], [11, 32], [10, 33]]
       = ⟨true, [0, 2], [(0, [(10, [30, 31, 33]), (11, [32])]),
               (2, [(30, [0]), (31, [1]), (32, [2]), (33, [3])])], true⟩ := by decide
+
+/-! ### only the relation matters -/
+
+/-- C10 constrains the taxonomy as a RELATION (who is a node of which level,
+who is a child of whom, which rows a leaf owns), never the order of a dict or
+of a child / row list.  A tree `t₂` that is `TreeEquiv` to a well-formed `t₁`
+(same hierarchy, same nodes at every level, child / row lists equal up to
+permutation) and is itself a Python dict with the same flags and key set is
+well formed, and answers every parent / ancestor query identically and every
+`as_leaves` query up to order.  This is what licenses the correspondence suite
+to compare the code's `drop_level` / `flatten` / `to_str` / factory results
+with the model's as relations (children lists sorted on both sides). -/
+theorem relation_invariance (t₁ t₂ : RawTree) (e : TreeEquiv t₁ t₂) (w₁ : WF t₁)
+    (d₂ : DictOK t₂) (hh : t₂.hasHierarchy = true) (hs : t₂.nodesAreStr = true)
+    (hk : ∀ k, k ∈ t₂.levels.map (·.1) ↔ k ∈ t₂.hierarchy) :
+    WF t₂ ∧
+    (∀ cl c, t₁.childToParent cl c = t₂.childToParent cl c) ∧
+    (∀ l n, t₁.parents l n = t₂.parents l n) ∧
+    (∀ l n al, t₁.ancestorAt l n al = t₂.ancestorAt l n al) ∧
+    (∀ l, l ∈ t₁.hierarchy → ∀ n, n ∈ t₁.nodesAt l → (t₁.asLeaves l n).Perm (t₂.asLeaves l n)) := by
+  have w₂ := wf_of_equiv e w₁ d₂ hh hs hk
+  exact ⟨w₂, childToParent_equiv e w₁ w₂, parents_equiv e w₁ w₂, ancestorAt_equiv e w₁ w₂,
+    fun l hl n hn => asLeaves_equiv' e w₁ w₂ hl hn⟩
+
+/-- the same taxonomy with every dict and list in another order -/
+def exTreeShuffled : RawTree :=
+  ⟨true, [0, 1, 2],
+    [(0, [(11, [22]), (10, [20, 21])]), (1, [(22, [33]), (21, [32, 31]), (20, [30])]),
+     (2, [(33, [3, 4]), (30, [0]), (31, [2, 1]), (32, [])])], true⟩
+
+example : TreeEquiv exTree exTreeShuffled ∧ DictOK exTreeShuffled := by
+  refine ⟨⟨by decide, ?_, ?_⟩, dictOK_of_b (by decide)⟩
+  · intro l hl n
+    have hl' : l = 0 ∨ l = 1 ∨ l = 2 := by simpa [exTree] using hl
+    have hp : (exTree.nodesAt l).Perm (exTreeShuffled.nodesAt l) := by
+      rcases hl' with rfl | rfl | rfl <;> decide
+    exact hp.mem_iff
+  · intro l hl n hn
+    have hl' : l = 0 ∨ l = 1 ∨ l = 2 := by simpa [exTree] using hl
+    rcases hl' with rfl | rfl | rfl
+    · have hn' : n = 10 ∨ n = 11 := by simpa [exTree, nodesAt, level, List.lookup] using hn
+      rcases hn' with rfl | rfl <;> decide
+    · have hn' : n = 21 ∨ n = 20 ∨ n = 22 := by
+        simpa [exTree, nodesAt, level, List.lookup] using hn
+      rcases hn' with rfl | rfl | rfl <;> decide
+    · have hn' : n = 30 ∨ n = 31 ∨ n = 32 ∨ n = 33 := by
+        simpa [exTree, nodesAt, level, List.lookup] using hn
+      rcases hn' with rfl | rfl | rfl | rfl <;> decide
+
+/-- `drop_preserves` for ANY order of the re-attached grand-children: whatever
+tree equals the model's `dropLevel` result as a relation (e.g. the code's, which
+is free to list the re-attached children in another order) is well formed and
+gives every leaf the ancestors it had before the drop at every remaining level.
+(Only `drop_leaf_preserves` mentions a literal concatenation order — of the
+row lists of the new leaves — and only as a statement about the model.) -/
+theorem drop_preserves_any_order (t : RawTree) (w : WF t) {i : Nat}
+    (hi : i + 1 < t.hierarchy.length) (allowLeaf : Bool) (t' t'' : RawTree)
+    (hd : t.dropLevel (t.hierarchy[i]'(by omega)) allowLeaf = .ok t')
+    (e : TreeEquiv t' t'') (d : DictOK t'') (hh : t''.hasHierarchy = true)
+    (hs : t''.nodesAreStr = true)
+    (hk : ∀ k, k ∈ t''.levels.map (·.1) ↔ k ∈ t''.hierarchy) :
+    WF t'' ∧ t''.hierarchy = t.hierarchy.eraseIdx i ∧
+    ∀ n, n ∈ t.nodesAt (t.hierarchy.getLast w.hNe) → ∀ l, l ∈ t''.hierarchy →
+      t''.ancestorAt (t.hierarchy.getLast w.hNe) n l =
+        t.ancestorAt (t.hierarchy.getLast w.hNe) n l := by
+  obtain ⟨t₀, hd₀, w', hh', _, _, hanc, _⟩ := drop_preserves t w hi allowLeaf
+  rw [hd] at hd₀
+  cases hd₀
+  have w'' := wf_of_equiv e w' d hh hs hk
+  refine ⟨w'', by rw [← e.hier]; exact hh', fun n hn l hl => ?_⟩
+  rw [← ancestorAt_equiv e w' w'']
+  exact hanc n hn l (by rw [e.hier]; exact hl)
 
 /-! ### the data-release CSV route -/
 
